@@ -1,5 +1,6 @@
 """C10: the XCDR encoding of dust-dds matches the DDS-XTypes standard as implemented independently
 (the independent implementation is the Lean specification Spec/Xcdr.lean, run through the model driver)."""
+import re
 from vlib.core import Case
 from vlib import xcdr_common as X
 
@@ -9,7 +10,14 @@ RULE = ("one `cmp <ver> <endianness> <type> <value> <hex1> <hex2>` line per case
         "optional members); hex1 = bytes of the specification in the dust-dds dialect, hex2 = bytes of the specification in "
         "the book dialect (both computed by `dustmodel xcdr specser|specstd` before the differential run); the "
         "implementation serializes the value and decodes hex1 and hex2; non-trivial when the value contains a collection, "
-        "string or nested structure; distinct by canonical op line")
+        "string or nested structure; distinct by canonical op line. "
+        "FOLLOW-UP 2: one case in eight draws wide strings and enumerations declared appendable / mutable (inside the model "
+        "and the specification); one case in eight draws UNIONS: FINAL unions are inside the Lean model and the Lean "
+        "specification; APPENDABLE and MUTABLE unions are the ORACLE-ONLY PART: they are in neither the Lean model "
+        "nor the Lean specification, the model answers `unmodelled`; the specification bytes of such a case are those of the "
+        "structure the standard reduces a union value to (rules (26)-(28): discriminator as must-understand member 0, "
+        "selected branch as member <branch id>, same extensibility), computed by the Lean specification on the reduced type; "
+        "the case runs on the implementation only and the oracle demands byte equality with the dust-dds dialect")
 ASSUMPTIONS = [
     "the independent implementation is Spec/Xcdr.lean (written from XTypes 1.3 rules (1)-(30)); a misreading of the standard "
     "shared with the dust-dds authors is not detected",
@@ -30,6 +38,17 @@ CORPUS = [
     (1, "le", "SF{0:c8}", "{200}"),                            # D63
     (1, "be", "SA{16383o:u8}", "{5}"),                         # id above 0x3F00: extended header in the specification
     (2, "le", "SM{0:A2(SF{0:u32})}", "{[{1},{2}]}"),           # array of structs: LC 4 (dust) / 5 (book)
+    # follow-up 2: an appendable / mutable ENUM member of a mutable structure has LC by size (no DHEADER)
+    (2, "le", "SM{0:Ei32a[0,1],1:u8}", "{1,7}"),
+    (2, "be", "SM{0:Ei16m[0,1],1:Ei8a[3]}", "{1,3}"),
+    (2, "le", "SM{0:Ei32[0,1],1:u8}", "{1,7}"),
+    # wide strings: length = UTF-16 units + 1 (a surrogate pair counts twice)
+    (1, "le", "SF{0:w,1:u8}", "{[97,55357,56832,98],7}"),
+    (2, "be", "SM{0:w,1:Q(w)}", "{[],[[8364],[55296,56320]]}"),
+    # unions (oracle-only part)
+    (2, "le", "SM{0:UAi32{2d:i16,1[5]:Ei32a[0,1]},1:u32}", "{<5,1:1>,9}"),
+    (1, "be", "SF{0:UFu8{1[5]:i64,2d:w},1:u32}", "{<5,1:7>,9}"),
+    (2, "le", "SF{0:UMi16{1[5]:Ei32a[0,1],2d:s}}", "{<5,1:1>}"),
 ]
 
 
@@ -38,6 +57,8 @@ def has_mutable(t):
         return has_mutable(t[1])
     if t[0] == "struct":
         return t[1] == "M" or any(has_mutable(m[4]) for m in t[2])
+    if t[0] == "union":
+        return any(has_mutable(b[3]) for b in t[3])
     return False
 
 
@@ -47,12 +68,37 @@ def long_ids(t, ver):
         return long_ids(t[1], ver)
     if t[0] == "struct":
         return any((ver == 1 and (t[1] == "M" or m[1]) and m[0] > 0x3F00) or long_ids(m[4], ver) for m in t[2])
+    if t[0] == "union":
+        return any(long_ids(b[3], ver) for b in t[3])
     return False
 
 
 def nontrivial(case, out):
     t = case.lines[0].split()
     return t[0] == "cmp" and t[4].count("{") + t[4].count("[") + t[4].count("x") > 1
+
+
+def oracle_union(case, out):
+    """oracle-only part: the implementation's bytes against the specification bytes of the reduced structure"""
+    line = case.lines[0]
+    tk = line.split()
+    o = out[0] if out else "CRASH"
+    ver, ty, val, h1 = int(tk[1]), tk[3], tk[4], tk[5]
+    t, v = X.parse_ty(ty), X.parse_val(val)
+    parts = o.split(" | ")
+    cause = X.attribute(t, v, ver)
+    if cause is None and long_ids(X.union_as_struct(t, v)[0], ver):
+        cause = "xcdr1-member-id-needs-extended-pid"
+    viol = []
+    if len(parts) != 3:
+        return [{"what": "malformed harness answer / crash", "op": line[:600], "got": o[:400], "cause": cause}]
+    if parts[0] != "ok " + h1:
+        viol.append({"what": f"serialized bytes of a value with a union differ from the specification (reduced structure): "
+                             f"{parts[0][:120]} vs {h1[:120]}", "op": line[:600], "got": o[:400], "cause": cause})
+    if parts[1] != "ok " + val:
+        viol.append({"what": f"specification bytes decode to {parts[1][:160]}", "op": line[:600], "got": o[:400],
+                     "cause": X.attribute_ext(t, v, ver) or cause})
+    return viol
 
 
 def oracle(case, out):
@@ -72,7 +118,7 @@ def oracle(case, out):
     def bad(what, cause):
         viol.append({"what": what, "op": line[:600], "got": o[:400], "cause": cause})
 
-    cause = X.attribute(t, v, ver)
+    cause = X.attribute(t, v, ver) or X.attribute_ext(t, v, ver)
     if cause is None and long_ids(t, ver):
         cause = "xcdr1-member-id-needs-extended-pid"
     if len(parts) != 3:
@@ -107,11 +153,43 @@ def run(ctx):
     protos = list(CORPUS)
     for k in range(n):
         ver = r.choice([1, 2])
-        kn = X.Knobs(ver=ver, big_id=25, c8_high=10, mut_absent_v2=30, lc5_seq=50, sentinel_id=50) if k % 15 == 0 else X.Knobs(ver=ver)
+        if k % 15 == 0:
+            kn = X.Knobs(ver=ver, big_id=25, c8_high=10, mut_absent_v2=30, lc5_seq=50, sentinel_id=50)
+        elif k % 8 == 1:      # follow-up 2: wide strings, enumerations with a declared extensibility
+            kn = X.Knobs(ver=ver, wstr=15, enum_ext=70, ext="FAMMM")
+        elif k % 8 == 2:      # follow-up 2: unions (oracle-only part)
+            kn = X.Knobs(ver=ver, wstr=8, union=25, enum_ext=60, nesting=3, union_ext="FFFAAMM", long=1, maxlong=150,
+                         maxseq=60, ext="FAMM")
+        elif k % 8 == 3:      # follow-up 2: final unions only (inside the model and the specification)
+            kn = X.Knobs(ver=ver, wstr=8, union=30, enum_ext=60, nesting=3, union_ext="F", long=1, maxlong=150, maxseq=60,
+                         ext="FAMM")
+        else:
+            kn = X.Knobs(ver=ver)
         t = X.gen_type(r, kn)
         v = X.gen_value(r, t, kn, ver=ver)
         protos.append((ver, r.choice(["le", "be"]), X.ty_text(t), X.val_text(v)))
     eng = X.model_engine()
+    # the oracle-only part: specification bytes of the structure a union value reduces to
+    uprotos = [p for p in protos if "UA" in p[2] or "UM" in p[2]]
+    protos = [p for p in protos if not ("UA" in p[2] or "UM" in p[2])]
+    ucases = []
+    reduced = []
+    for (a, b, c, d) in uprotos:
+        red = X.union_as_struct(X.parse_ty(c), X.parse_val(d))
+        if red is None:
+            ctx.count("oracle-only: union inside a collection (no reduction to a structure, skipped)")
+            continue
+        reduced.append(((a, b, c, d), f"specser {a} {b} {X.ty_text(red[0])} {X.val_text(red[1])}"))
+    for ((a, b, c, d), _), s1 in zip(reduced, X.model_outputs([q for _, q in reduced], eng)):
+        if not s1.startswith("ok "):
+            ctx.count("oracle-only: skipped (specification refused the reduced value)")
+            continue
+        ucases.append(Case([f"cmp {a} {b} {c} {d} {s1[3:]} {s1[3:]}"]))
+        ctx.count("oracle-only part (type has an appendable / mutable union)")
+        if re.search(r"SM\{[^{}]*E(i8|i16|i32)[am]\[", c) or re.search(r"UM[a-z0-9]+\{[^{}]*E(i8|i16|i32)[am]\[", c):
+            ctx.count("oracle-only: appendable / mutable enum member of a mutable structure / union")
+    for i in range(0, len(ucases), 5000):
+        X.oracle_only(ctx, ENGINE, ucases[i:i + 5000], nontrivial=lambda c, o: True, oracle=oracle_union)
     spec = X.model_outputs([f"specser {a} {b} {c} {d}" for a, b, c, d in protos], eng)
     std = X.model_outputs([f"specstd {a} {b} {c} {d}" for a, b, c, d in protos], eng)
     cases = []
@@ -123,6 +201,12 @@ def run(ctx):
         ctx.count(f"xcdr{a}-{b}")
         if "SM{" in c:
             ctx.count("type has mutable")
+        if re.search(r"SM\{[^{}]*E(i8|i16|i32)[am]\[", c) and a == 2:
+            ctx.count("XCDR2 mutable structure with an appendable / mutable enum member")
+        if "w" in c:
+            ctx.count("type has wide string")
+        if "UF" in c:
+            ctx.count("type has a final union (inside model and specification)")
         if s1 != s2:
             ctx.count("dialects differ")
     ctx.count("model-engine " + eng)
@@ -142,7 +226,12 @@ LEVEL_TEXT = ("Kernel-checked Lean theorems: C10_model_eq_spec / C10_model_eq_sp
               "book reading (list terminator and its alignment, member order, length code), with kernel-checked witnesses for the "
               "two deviations that are not mere choices (LC = 5 for primitive sequences, PID 1 as list terminator). The "
               "differential run compares the real bytes with the specification's (dust-dds dialect) and feeds specification bytes "
-              "of both dialects to the real decoder.")
+              "of both dialects to the real decoder. FOLLOW-UP 2: the model, the specification and C10_model_eq_spec now also "
+              "cover wide strings, enumerations with a declared extensibility (C10_enum_length_code: an enum member never gets "
+              "LC = 5, whatever its extensibility; C10_appendable_enum_member_bytes) and FINAL unions. ORACLE-ONLY PART: "
+              "appendable and mutable unions are in neither the model nor the specification; their bytes are compared with the "
+              "specification bytes of the structure the standard reduces a union value to, on the implementation only; nothing "
+              "is proved about them.")
 LEVEL_NOTE = ("Trusted: Lean kernel; the specification Spec/Xcdr.lean as a faithful reading of XTypes 1.3 clause 7.4.3.5 (each "
               "clause cites its rule number; a misreading shared with dust-dds is not caught); the transcription Model/Xcdr.lean, "
               "tied to the code by the differential run of C09/C10; harness and oracle. No external DDS implementation is "
